@@ -40,14 +40,18 @@ ASM_STAT_KEYS = ["GQ", "SQ", "DP", "RCOUNT", "RCALLS", "MEC", "MECP", "GPM", "SP
 
 def plan(tier, seed):
     q = tier == "quick"
-    return [{"name": "s%02d" % i, "shard": i, "datasets": 2 if q else 40, "timeout": 7000} for i in range(16)]
+    specs = [{"name": "s%02d" % i, "shard": i, "datasets": 2 if q else 40, "timeout": 7000} for i in range(16)]
+    # session 4: populations listing more than 127 ALT alleles at one locus (allele numbers beyond int8)
+    specs += [{"name": "wide%d" % i, "kind": "wide", "shard": 40 + i, "datasets": 1 if q else 4, "timeout": 7000} for i in range(2)]
+    return specs
 
 
 def required(tier):
     return {"alone_vs_joint_columns": 100, "subset_permutation_columns": 60, "assemble_haplotype_containment_checked": 30,
             "pool_read_matrix_checked": 30, "pool_vs_merged_records": 30, "bam_order_runs": 16, "sample_in_two_pools_runs": 8, "datasets_with_shared_bam": 4, "pool_files_with_interleaved_pools": 4, "datasets_with_per_sample_inbreeding": 4, "datasets_with_report_fields": 6,
             "datasets_with_per_sample_temperatures": 4, "datasets_with_sampler_options": 6, "datasets_with_input_filter_or_prior": 6,
-            "datasets_samples_by_read_group_id": 4, "shared_vs_split_file_runs": 10, "shared_vs_split_file_columns": 100}
+            "datasets_samples_by_read_group_id": 4, "shared_vs_split_file_runs": 10, "shared_vs_split_file_columns": 100,
+            "wide_joint_records_with_more_than_127_alts": 2, "wide_alone_vs_joint_columns": 12, "wide_columns_with_allele_number_above_127": 4}
 
 
 def argv(ds, prog, bams, hap=None, ploidy_file=None, extra=(), sel=None):
@@ -126,7 +130,72 @@ def named_haps(rec, sample):
     return Counter(seqs[a] for a in gt if a is not None), sum(1 for a in gt if a is None)
 
 
+def run_wide(tier, seed, spec, col):
+    """One locus, 150-190 samples in one BAM, each carrying its own haplotypes: the joint assemble record lists more than 127
+    ALT alleles.  Samples whose joint GT uses the highest allele numbers (and a few others) are assembled alone and compared."""
+    for dI in range(spec["datasets"]):
+        rng = gen.rng_for(seed, ID, spec["shard"], dI)
+        root = env.workdir("c10-%s-%d" % (spec["name"], dI))
+        shutil.rmtree(root, ignore_errors=True)
+        n_s = int(rng.integers(150, 190))
+        ds = datasets.make_dataset(rng, root, n_samples=n_s, n_loci=1, ploidy=[2], depth=(10, 14), contig_len=300, snv_range=(9, 10),
+                                   multi_allelic=0.0, hostile=0.0, samples_per_bam=n_s, locus_len=(40, 60), read_len=(40, 60))
+        base = ["assemble", "--targets", ds.bed, "--variants", ds.vcf, "--reference", ds.fasta, "--ploidy", "2", "--mcmc-steps", "120", "--mcmc-burn", "60",
+                "--mcmc-seed", str(int(rng.choice([0, 5, 11]))), "--report", "AFP"]
+        lst = os.path.join(root, "bams.txt")
+        def bam_list(sel):
+            with open(lst, "w") as fh:
+                for s_ in sel:
+                    fh.write("%s\t%s\n" % (s_, ds.sample_bam[s_]))
+            return ["--bam", lst]
+        rep = {"dataset_seed": [seed, spec["shard"], dI], "kind": "wide", "n_samples": n_s}
+        out, exc = cli.run_inproc(base + bam_list(ds.samples))
+        if exc is not None:
+            col.violation("program-fails-on-valid-input", "assemble (wide population, %d samples) raised %r" % (n_s, exc), rep)
+            continue
+        hJ, joint = by_locus(out)
+        (key, rJ), = list(joint.items())[:1]
+        col.add_to_set("wide_alt_counts", len(rJ.alts))
+        if len(rJ.alts) > 127:
+            col.count("wide_joint_records_with_more_than_127_alts")
+        # samples using the highest allele numbers, a '.' allele, and a few random ones
+        top = sorted(ds.samples, key=lambda s_: -max([a for a in (rJ.gt(s_)[0] or []) if a is not None] or [0]))[:6]
+        miss = [s_ for s_ in ds.samples if any(a is None for a in (rJ.gt(s_)[0] or [None]))][:2]
+        rnd = [ds.samples[int(i)] for i in rng.permutation(n_s)[:2]]
+        for s_ in dict.fromkeys(top + miss + rnd):
+            case = dict(rep, selection=[s_])
+            col.case(case, nontrivial=True)
+            out2, exc2 = cli.run_inproc(base + bam_list([s_]))
+            if exc2 is not None:
+                col.violation("program-fails-on-valid-input", "assemble on %s alone raised %r" % (s_, exc2), case)
+                continue
+            h2, part = by_locus(out2)
+            r2 = part.get(key)
+            if r2 is None:
+                col.violation("locus-set-depends-on-samples", "assemble: locus missing when %s runs alone" % s_, case)
+                continue
+            col.count("wide_alone_vs_joint_columns")
+            gtj = [a for a in (rJ.gt(s_)[0] or []) if a is not None]
+            if gtj and max(gtj) > 127:
+                col.count("wide_columns_with_allele_number_above_127")
+            sa, sj = r2.samples[s_], rJ.samples[s_]
+            diff = [k2 for k2 in ASM_STAT_KEYS if sa.get(k2) != sj.get(k2)]
+            if diff:
+                col.violation("sample-statistics-depend-on-other-samples", "assemble %s:%d sample %s (population of %d, %d ALTs): %s differ: %s vs %s"
+                              % (key[0], key[1], s_, n_s, len(rJ.alts), diff, [sa.get(k2) for k2 in diff], [sj.get(k2) for k2 in diff]), case)
+                continue
+            ha, ma = named_haps(r2, s_)
+            hj, mj = named_haps(rJ, s_)
+            gained = sum((hj - ha).values())
+            if (ha - hj) or (ma - mj) != gained or mj > ma:
+                col.violation("called-haplotypes-depend-on-other-samples", "assemble %s:%d sample %s: named haplotypes %s ('.' x%d) alone but %s ('.' x%d) in a population of %d samples listing %d ALTs (joint GT %s)"
+                              % (key[0], key[1], s_, dict(ha), ma, dict(hj), mj, n_s, len(rJ.alts), sj.get("GT")), case)
+        shutil.rmtree(root, ignore_errors=True)
+
+
 def run_shard(tier, seed, spec, col):
+    if spec.get("kind") == "wide":
+        return run_wide(tier, seed, spec, col)
     import pysam
 
     from mchap.application import assemble as ASM
